@@ -16,6 +16,7 @@ import copy
 import math
 import os
 import re
+import time
 
 import dst
 import refwalkd
@@ -40,6 +41,14 @@ def simgrid_mc():
 
 def s4usim():
     return os.environ.get('VERIF_S4USIM', dst.BIN + '/s4usim')
+
+
+def child_env():
+    """environment of every process we spawn: with VERIF_SG (mutant build) the checker and the verified s4usim must both
+    load that libsimgrid (their RUNPATH is searched after LD_LIBRARY_PATH)"""
+    if os.environ.get('VERIF_SG'):
+        return dict(LD_LIBRARY_PATH=sgdir() + '/lib')
+    return None
 
 
 def need_binaries():
@@ -155,6 +164,107 @@ def _rm(*files):
             pass
 
 
+# ------------------------------------------------------------------------------------------------------- process watch
+def _group_status(pgid):
+    """-> (number of processes of the group, any runnable/uninterruptible, total cpu ticks)"""
+    n, busy, ticks = 0, False, 0
+    for d in os.listdir('/proc'):
+        if not d.isdigit():
+            continue
+        try:
+            with open('/proc/%s/stat' % d) as f:
+                st = f.read()
+        except OSError:
+            continue
+        rp = st.rfind(')')
+        fld = st[rp + 2:].split()
+        # fld[0]=state [2]=pgrp [11]=utime [12]=stime
+        try:
+            if int(fld[2]) != pgid:
+                continue
+            n += 1
+            if fld[0] in ('R', 'D'):
+                busy = True
+            ticks += int(fld[11]) + int(fld[12])
+        except (ValueError, IndexError):
+            continue
+    return n, busy, ticks
+
+
+def run_proc_watch(cmd, timeout=60, stall_s=12, cwd=None, env=None, repeat_marker=None, repeat_max=5):
+    """like dst.run_proc, plus two wall-clock independent ways of recognising a run that will never end:
+    - stall: every process of the group has been sleeping (none runnable) without consuming a single cpu tick for
+      stall_s seconds: checker and application wait for each other;
+    - loop: the same line starting with repeat_marker (a complete execution path printed by the explorer) has been
+      printed repeat_max times: the exploration goes round in circles.
+    -> (rc, stdout, stderr, timed_out, stalled, looping)"""
+    import signal
+    import subprocess
+    import threading
+    e = dict(os.environ)
+    if env:
+        e.update(env)
+    p = subprocess.Popen(cmd, stdin=subprocess.DEVNULL, stdout=subprocess.PIPE, stderr=subprocess.PIPE, env=e, cwd=cwd,
+                         start_new_session=True)
+    bufs = {1: [], 2: []}
+
+    def pump(f, k):
+        while True:
+            c = f.read1(65536) if hasattr(f, 'read1') else f.read(65536)
+            if not c:
+                break
+            bufs[k].append(c)
+    th = [threading.Thread(target=pump, args=(p.stdout, 1), daemon=True),
+          threading.Thread(target=pump, args=(p.stderr, 2), daemon=True)]
+    for t in th:
+        t.start()
+    t0 = time.time()
+    last_ticks, last_change = -1, t0
+    stalled = timed_out = looping = False
+    seen, scanned, carry = {}, 0, b''
+    mark = repeat_marker.encode() if repeat_marker else None
+    while True:
+        try:
+            p.wait(timeout=1.0)
+            break
+        except subprocess.TimeoutExpired:
+            pass
+        now = time.time()
+        n, busy, ticks = _group_status(p.pid)
+        if busy or ticks != last_ticks:
+            last_ticks, last_change = ticks, now
+        elif n > 0 and now - last_change >= stall_s:
+            stalled = True
+        if mark is not None:
+            chunks = bufs[2][scanned:]
+            scanned += len(chunks)
+            data = carry + b''.join(chunks)
+            lines = data.split(b'\n')
+            carry = lines.pop()
+            for l in lines:
+                i = l.find(mark)
+                if i >= 0:
+                    k = l[i:]
+                    seen[k] = seen.get(k, 0) + 1
+                    if seen[k] >= repeat_max:
+                        looping = True
+        if now - t0 > timeout:
+            timed_out = True
+        if stalled or timed_out or looping:
+            try:
+                os.killpg(p.pid, signal.SIGKILL)
+            except ProcessLookupError:
+                pass
+            p.wait()
+            break
+    for t in th:
+        t.join(timeout=5)
+    out, err = b''.join(bufs[1]), b''.join(bufs[2])
+    if stalled or timed_out or looping:
+        return -9, out, err, timed_out and not (stalled or looping), stalled, looping
+    return p.returncode, out, err, False, False, False
+
+
 # ------------------------------------------------------------------------------------------------------- simgrid-mc
 def parse_mc_stderr(text):
     """-> dict(reports=[dict(kind, sig, path)], complete_paths=[...], states, traces, replays, visited, events,
@@ -167,7 +277,7 @@ def parse_mc_stderr(text):
         m = _LINE.match(raw)
         if not m:
             if raw.startswith('     - ') and cur is not None and cur['kind'] == 'deadlock' and cur['path'] is None:
-                cur['sig'].append(raw.strip())
+                cur['sig'].append(norm_sig_line(raw))
             continue
         cat, lvl, msg = m.group(1), m.group(2), m.group(3)
         if lvl in ('CRITICAL', 'ERROR'):
@@ -183,7 +293,7 @@ def parse_mc_stderr(text):
             cur = dict(kind='crash', sig=[], path=None)
         elif cur is not None and cur['kind'] == 'deadlock' and cat == 'ker_engine' and \
                 (msg.startswith(' - pid') or msg.startswith('     - ')):
-            cur['sig'].append(msg.strip())
+            cur['sig'].append(norm_sig_line(msg))
         elif cur is not None and cur['kind'] == 'crash' and msg.startswith('From '):
             cur['sig'].append(msg.strip())
         elif "--cfg=model-check/replay:'" in msg:
@@ -237,19 +347,30 @@ def run_mc(plan, scratch, red, algo='DFS', strategy='none', randseed=None, max_e
     if verbose:
         cmd += ['--log=mc_dfs.thres:verbose', '--log=mc_befs.thres:verbose']
     cmd += list(extra_cfg) + LOGFMT
-    rc, out, err, to = dst.run_proc(cmd, timeout=timeout, cwd=scratch)
-    text = err.decode('utf-8', 'replace')
+    t0 = time.time()
+    for attempt in range(4):
+        rc, out, err, to, stalled, looping = run_proc_watch(cmd, timeout=timeout, cwd=scratch, env=child_env(),
+                                                             repeat_marker='Execution came to an end at ')
+        text = err.decode('utf-8', 'replace')
+        if 'failed to exec(' not in text and 'Text file busy' not in text:
+            break
+        _rm(mcout)
+        time.sleep(1.5)   # the shared harness binary is being relinked by another session
+    else:
+        raise dst.Infra('simgrid-mc cannot exec %s: %s' % (s4usim(), text[-300:]))
     res = parse_mc_stderr(text)
     terms, asserts, nlines = parse_mcout(mcout)
     _rm(mcout, pf)
-    res.update(rc=rc, timed_out=to, outcomes=terms, asserts=asserts, mcout_lines=nlines, red=red, algo=algo,
+    res.update(rc=rc, timed_out=to, stalled=stalled, looping=looping, outcomes=terms, asserts=asserts, mcout_lines=nlines, red=red, algo=algo,
                strategy=strategy, config='%s/%s/%s' % (red, algo if red != 'udpor' else '-', strategy),
-               stderr_tail=text[-2500:], cmd=' '.join(cmd[3:]))
+               stderr_tail=text[-2500:], cmd=' '.join(cmd[3:]), wall=round(time.time() - t0, 2))
     if keep_stderr:
         res['stderr'] = text
     res['dl_sigs'] = set(r['sig'] for r in res['reports'] if r['kind'] == 'deadlock')
     # the exploration went to its end: main() returned one of its statuses
-    res['finished'] = (not to) and rc in (0, 1, 2) and res['ended']
+    # simgrid_mc.cpp leaves at once (status 0) when no actor is enabled in the initial state
+    res['empty_program'] = 'did not do any transition before terminating' in text
+    res['finished'] = (not to) and (not stalled) and (not looping) and rc in (0, 1, 2) and (res['ended'] or res['empty_program'])
     res['unsupported'] = None
     for c in res['criticals']:
         if 'no specialized computation for the transition' in c or 'does currently not support' in c or \
@@ -279,13 +400,19 @@ def _split_runs(text):
     return runs, crash
 
 
+def norm_sig_line(msg):
+    """status line of a blocked actor without what depends on the interleaving that led there: communication ids are
+    allocated in creation order"""
+    return re.sub(r'comm_id:\s*\d+', 'comm_id:*', msg.strip())
+
+
 def deadlock_sig_of_stderr(text):
     sig = []
     for raw in text.split('\n'):
         m = _LINE.match(raw)
         msg = m.group(3) if m else raw
         if (m and m.group(1) == 'ker_engine' and (msg.startswith(' - pid') or msg.startswith('     - '))):
-            sig.append(msg.strip())
+            sig.append(norm_sig_line(msg))
     return tuple(sorted(sig))
 
 
@@ -301,10 +428,21 @@ def run_walks(plan, scratch, specs, timeout=120, tag='w', maxsteps=400):
             f.write(' '.join('%s=%s' % (k, s[k]) for k in sorted(s)) + '\n')
     pf = _write_plan(plan, scratch, tag, dict(mode='walk', walker='d', multi=mf, maxsteps=str(maxsteps)))
     cmd = [s4usim(), pf] + LOGFMT
-    rc, out, err, to = dst.run_proc(cmd, timeout=timeout, cwd=scratch)
+    for attempt in range(4):
+        try:
+            rc, out, err, to = dst.run_proc(cmd, timeout=timeout, cwd=scratch, env=child_env())
+        except OSError:
+            rc, out, err, to = 126, b'', b'', False
+        if rc not in (126, 127) and b'#DONE' in out:
+            break
+        if to:
+            break
+        time.sleep(1.5)   # the shared harness binary is being relinked by another session
     _rm(mf, pf)
     if to:
         raise dst.Infra('walker D did not finish %d walks within %ds' % (len(specs), timeout))
+    if b'#DONE' not in out:
+        raise dst.Infra('walker D failed (rc=%s): %s' % (rc, err.decode('utf-8', 'replace')[-300:]))
     runs, crash = _split_runs(out.decode('utf-8', 'replace'))
     eruns, _ = _split_runs(err.decode('utf-8', 'replace'))
     res = []
@@ -394,7 +532,7 @@ def run_replay(plan, scratch, path, timeout=30, tag='rp'):
     need_binaries()
     pf = _write_plan(plan, scratch, tag, {})
     cmd = [s4usim(), pf, '--cfg=model-check/replay:' + path_cfg(path)] + LOGFMT
-    rc, out, err, to = dst.run_proc(cmd, timeout=timeout, cwd=scratch)
+    rc, out, err, to = dst.run_proc(cmd, timeout=timeout, cwd=scratch, env=child_env())
     _rm(pf)
     text = err.decode('utf-8', 'replace')
     log = out.decode('utf-8', 'replace')
